@@ -3,6 +3,7 @@ from __future__ import annotations
 
 from ..specs import operators as optab
 from . import coretypes as ct
+from . import array_folds as af
 from .units_rules import check_array_to
 
 EXPLANATION = (
@@ -24,24 +25,16 @@ def r1_table(run, tree):
 
 
 def r2_strict_conversion(run, tree):
-    run.rule("C07.R2", "strict conversion dominates the comparison ufunc; equal-unit conversion is the identity",
-             "path enumeration + D1", "", floor=4)
-    ct.analyse_binary_op(run, tree, "C07.R2", want_strict=(True,))
+    run.rule("C07.R2", "strict conversion precedes the comparison ufunc; equal-unit conversion is the identity",
+             "D7 fold of _binary_op (strict) + D1 on Array.to", "pint: Quantity.to raises DimensionalityError iff dimensions differ", floor=6)
+    af.check_binary_op_fold(run, tree, stricts=(True,))
     check_array_to(run, tree)
     ct.check_array_constructor(run, tree)
 
 
 def r3_bool_dimensionless(run, tree):
-    run.rule("C07.R3", "boolean results are dimensionless", "D7 fincase over the dtype model", "numpy dtype model", floor=2)
-    ct.check_dtype_gate(run, tree, want_numeric=False, want_bool=True)
-    f = ct.analyse_wrap_numpy(tree)
-    if f.apply_tuple is None:
-        run.unresolved(ct.ARRAY + "._wrap_numpy::APPLY_OP_TO_UNIT", f.fi.where(), "unit-transforming set not found")
-        return
-    bad = [n for n in optab.PREDICATES if n in f.apply_tuple]
-    run.ob(ct.ARRAY + "::APPLY_OP_TO_UNIT[no predicates]", not bad, f.fi.where(),
-           "comparison/logical ufuncs in the unit-transforming set: %s" % (bad or "none"),
-           "np.less applied to unit quantities")
+    run.rule("C07.R3", "boolean results are dimensionless", "D7 fold of _wrap_numpy over the dtype model", "numpy dtype model", floor=1)
+    af.check_wrap_numpy_fold(run, tree, want=("gate-bool",))
 
 
 RULES = [r1_table, r2_strict_conversion, r3_bool_dimensionless]
